@@ -104,6 +104,33 @@ def standin(tier, seed):
                     V.add("step:displacement_not_zeta_delta_mass_factor", case, float(np.abs(disp - mc.zeta * bound).max()))
                 if a.calc.evals - e0 > 2:
                     V.add("step:advances_more_than_once", case, f"{a.calc.evals - e0} calculator evaluations in one step")
+    # the bound of EVERY step follows the masses in force at that step: a step, new scaling masses through the documented
+    # `update_masses` (same number of atoms), another step -- on one object
+    for rep in range(6 if tier == "quick" else 60):
+        g2 = np.random.default_rng(seed + 100 + rep)
+        n2 = 6
+        power = (0.25, 0.5, 1.0)[rep % 3]
+        mc, a = make(n2, g2.normal(size=(n2, 3)) * 3.0, 0.1, 300.0, seed + rep, masses=np.full(n2, 63.5))
+        mc.masses_scaling_power = power
+        for stage in range(3):
+            if stage == 1:
+                m_new = np.where(np.arange(n2) % 3 == 0, 1.008, 63.5)
+                a.set_masses(m_new)
+                mc.update_masses()
+            if stage == 2:
+                mc.update_masses(g2.uniform(1, 100, (n2, 3)))
+            p0 = a.get_positions()
+            with_alarm(60, mc.step)
+            disp = a.get_positions() - p0
+            bound = 0.1 * np.power(np.min(mc.shaped_masses) / mc.shaped_masses, power)
+            case = {"update_masses_between_steps": True, "stage": stage, "power": power, "seed": seed + rep}
+            V.case(case)
+            if np.any(np.abs(disp) > bound * (1 + 1e-9) + 1e-12):
+                V.add("step:bound_after_update_masses", case, f"max |disp|/bound = {np.nanmax(np.abs(disp) / bound):.4g}")
+                break
+            if not np.allclose(disp, mc.zeta * bound, rtol=1e-9, atol=1e-12):
+                V.add("step:displacement_not_zeta_delta_mass_factor_after_update_masses", case, float(np.abs(disp - mc.zeta * bound).max()))
+                break
     # density: empirical moments of zeta against the Bal-Neyts law, 5 sigma
     n = 3000 if tier == "quick" else 30000
     T, delta = 300.0, 0.1
